@@ -578,19 +578,41 @@ fn box_extract_if() {
 #[kani::stub(core::ptr::copy_nonoverlapping, crate::stubs::copy_stub)]
 fn box_dedup_by() {
     state!(buf, vals, len, b, m);
-    // bit k: element k is a duplicate of its retained predecessor
-    let mask: u8 = kani::any();
-    b.dedup_by(|cur, _prev| (mask >> cur.id) & 1 == 1);
+    // ANY relation over (current id, id of the element it is compared with): bit 4*cur + prev. std's contract:
+    // same_bucket(a, b) receives the current element and the last RETAINED element, both live; it may mutate both.
+    let rel: u16 = kani::any();
+    let bump: u8 = kani::any();
+    b.dedup_by(|cur, prev| {
+        assert!((cur.id as usize) < CAP && (prev.id as usize) < CAP, "C08: dedup_by handed a garbage element to the predicate");
+        assert!(drops(cur.id as usize) == 0 && drops(prev.id as usize) == 0, "C08/C06: dedup_by handed an already dropped element to the predicate");
+        let same = (rel >> (4 * cur.id + prev.id)) & 1 == 1;
+        if same {
+            // the merge idiom: fold the removed element into the retained one
+            prev.val = prev.val.wrapping_add(bump);
+        }
+        same
+    });
     let mut mr = Model::empty();
+    let mut exp = vals;
+    let mut last = 0usize;
     let mut k = 0;
     while k < CAP {
-        if k < len && (k == 0 || (mask >> k) & 1 == 0) {
-            mr.push(k as u8);
+        if k < len {
+            if k == 0 {
+                mr.push(0);
+            } else if (rel >> (4 * k + last)) & 1 == 1 {
+                exp[last] = exp[last].wrapping_add(bump);
+            } else {
+                mr.push(k as u8);
+                last = k;
+            }
         }
         k += 1;
     }
     kani::cover!(len == CAP && mr.len == 2, "two duplicates removed");
-    assert_is(&b, &mr, &vals);
+    kani::cover!(len == CAP && mr.len == 1, "a run of four collapsed into one");
+    kani::cover!(len == CAP && mr.len == 2 && mr.ids[1] == 3, "a run of three collapsed, then a retained element");
+    assert_is(&b, &mr, &exp);
     drop(b);
     assert_dropped_once(len);
     kani::cover!(true, "END: harness ran to completion");
